@@ -185,6 +185,17 @@ func (r *renderer) typeDecl(t *TypeDecl) {
 	}
 }
 
+// vname spells a variable (or operand expression) in this file.
+func (r *renderer) vname(v *Var) string {
+	switch {
+	case v.CallOf != nil:
+		return r.qual(v.CallOf.Pkg) + v.CallOf.Name + "()"
+	case v.PkgNamed != nil:
+		return strings.TrimSuffix(r.qual(v.PkgNamed), ".")
+	}
+	return v.Name
+}
+
 func (r *renderer) varType(v *Var) string {
 	if v.Ref == nil {
 		if v.Basic != "" {
@@ -219,7 +230,7 @@ func (r *renderer) funcDecl(f *FuncDecl) {
 	f.File = r.f
 	head := "func "
 	if f.Recv != nil {
-		head += fmt.Sprintf("(%s %s) ", f.Recv.Name, r.varType(f.Recv))
+		head += fmt.Sprintf("(%s %s) ", r.vname(f.Recv), r.varType(f.Recv))
 	}
 	head += f.Name + "("
 	if len(f.Params) == 0 {
@@ -238,7 +249,7 @@ func (r *renderer) funcDecl(f *FuncDecl) {
 		f.Start = r.emit("%s%s%s", head, tag(f.ID), r.trail(&f.Node))
 		r.indent++
 		for _, p := range f.Params {
-			r.emit("%s %s,%s", p.Name, r.varType(p), tag(p.ID))
+			r.emit("%s %s,%s", r.vname(p), r.varType(p), tag(p.ID))
 		}
 		r.indent--
 		r.emit(")%s", closeParams())
@@ -255,6 +266,8 @@ func (r *renderer) funcDecl(f *FuncDecl) {
 	r.stmts(f.Body)
 	if f.RetSite != nil {
 		r.site(f.RetSite)
+	} else if f.RetVar != nil {
+		r.emit("return %s", f.RetVar.Name)
 	} else if f.RetExpr != "" {
 		r.emit("return %s", f.RetExpr)
 	}
@@ -284,7 +297,7 @@ func (r *renderer) varDecl(v *VarDecl) {
 			v.Start = r.emit("%s%s = func(%s%s", prefix, v.Name, tag(v.ID), r.trail(&v.Node))
 			r.indent++
 			for _, p := range v.Closure.Params {
-				r.emit("%s %s,%s", p.Name, r.varType(p), tag(p.ID))
+				r.emit("%s %s,%s", r.vname(p), r.varType(p), tag(p.ID))
 			}
 			r.indent--
 			r.emit(") bool {")
@@ -344,12 +357,19 @@ func (r *renderer) wrap(w *Wrap) {
 		closeText = "}()"
 	case WBlock:
 		w.Start = r.emit("{%s", tr)
+	case WAssignClosure:
+		w.Start = r.emit("_ = func() {%s", tr)
+	case WArgClosure:
+		w.Start = r.emit("func(f func()) {}(func() {%s", tr)
+		closeText = "})"
+	case WVarClosure:
+		w.Start = r.emit("var %s = func() {%s", w.Name, tr)
 	case WClosureParams:
 		w.Start = r.emit("func(%s", tr)
 		r.indent++
 		var args []string
 		for _, p := range w.Params {
-			r.emit("%s %s,%s", p.Name, r.varType(p), tag(p.ID))
+			r.emit("%s %s,%s", r.vname(p), r.varType(p), tag(p.ID))
 			args = append(args, "nil")
 		}
 		r.indent--
@@ -360,6 +380,9 @@ func (r *renderer) wrap(w *Wrap) {
 	r.stmts(w.Body)
 	r.indent--
 	w.End = r.emit("%s%s", closeText, r.trailLast(&w.Node))
+	if w.Kind == WVarClosure {
+		r.emit("_ = %s", w.Name)
+	}
 }
 
 func fieldValue(f *Field) string {
@@ -381,12 +404,15 @@ func opnd(v *Var) string { return v.Name }
 func (r *renderer) site(s *Site) {
 	r.before(&s.Node)
 	s.File = r.f
+	if s.LocalVar != nil {
+		s.Local = s.LocalVar.Name
+	}
 	t := tag(s.ID) + r.trail(&s.Node)
 	var text string
 	var after []string
 	o := ""
 	if s.Opnd != nil {
-		o = s.Opnd.Name
+		o = r.vname(s.Opnd)
 	}
 	fname := ""
 	if s.Field != nil {
@@ -443,6 +469,8 @@ func (r *renderer) site(s *Site) {
 		} else {
 			text = fmt.Sprintf("*%s = %s{}", o, r.refNoPtr(s.Ref))
 		}
+	case "ptr.assign":
+		text = fmt.Sprintf("*%s = %s{}", o, r.refNoPtr(s.Ref))
 	case "imm.recvincdec":
 		text = fmt.Sprintf("*%s%s", o, s.Aux)
 	case "read.field":
@@ -485,12 +513,12 @@ func (r *renderer) site(s *Site) {
 	case "varblank":
 		text = fmt.Sprintf("%s_ %s", varkw, r.refNoPtr(s.Ref))
 	case "varinit":
-		text = fmt.Sprintf("%s%s %s = %s%s()", varkw, s.Local, r.refNoPtr(s.Ref), r.qual(s.Fn.Pkg), s.Fn.Name)
+		text = fmt.Sprintf("%s%s %s = %s%s(%s)", varkw, s.Local, r.refNoPtr(s.Ref), r.qual(s.Fn.Pkg), s.Fn.Name, callArgs(s.Fn))
 		if inFunc {
 			after = append(after, "_ = "+s.Local)
 		}
 	case "varinfer":
-		text = fmt.Sprintf("%s%s = %s%s()", varkw, s.Local, r.qual(s.Fn.Pkg), s.Fn.Name)
+		text = fmt.Sprintf("%s%s = %s%s(%s)", varkw, s.Local, r.qual(s.Fn.Pkg), s.Fn.Name, callArgs(s.Fn))
 		if inFunc {
 			after = append(after, "_ = "+s.Local)
 		}
@@ -516,6 +544,14 @@ func (r *renderer) site(s *Site) {
 		text = lhs(fmt.Sprintf("%s.%s", r.mexprType(s), s.Fn.Name))
 	case "mexprcall":
 		args := o
+		if s.Fn.Recv != nil && s.Opnd.Ref != nil {
+			switch {
+			case !s.Fn.Recv.IsPtr() && s.Opnd.IsPtr():
+				args = "*" + o
+			case s.Fn.Recv.IsPtr() && !s.Opnd.IsPtr():
+				args = "&" + o
+			}
+		}
 		if a := callArgs(s.Fn); a != "" {
 			args += ", " + a
 		}
